@@ -17,6 +17,8 @@ import (
 	"net/http"
 	"net/http/httptest"
 	"net/url"
+	"os"
+	"path/filepath"
 	"sort"
 	"strconv"
 	"strings"
@@ -82,36 +84,45 @@ func decList(s string) []string {
 	return p
 }
 
-func (c caseCfg) header() string {
-	ss := make([]string, len(c.samplers))
-	for i, s := range c.samplers {
+func encSamplers(ss0 []samplerSpec) string {
+	ss := make([]string, len(ss0))
+	for i, s := range ss0 {
 		ss[i] = fmt.Sprintf("%s~%s~%d~%s", kit.Enc(s.name), s.kind, s.rate, encList(s.fields))
-	}
-	v := 0
-	if c.validate {
-		v = 1
 	}
 	sj := strings.Join(ss, ";")
 	if sj == "" {
 		sj = "-"
 	}
-	return fmt.Sprintf("prefix=%s tid=%s pid=%s validate=%d samplers=%s", kit.Enc(c.prefix), encList(c.tids), encList(c.pids), v, sj)
+	return sj
+}
+
+func decSamplers(s string) []samplerSpec {
+	var out []samplerSpec
+	if s == "-" || s == "" {
+		return nil
+	}
+	for _, one := range strings.Split(s, ";") {
+		p := strings.Split(one, "~")
+		if len(p) != 4 {
+			panic("bad sampler spec " + one)
+		}
+		r, _ := strconv.Atoi(p[2])
+		out = append(out, samplerSpec{name: kit.Dec(p[0]), kind: p[1], rate: r, fields: decList(p[3])})
+	}
+	return out
+}
+
+func (c caseCfg) header() string {
+	v := 0
+	if c.validate {
+		v = 1
+	}
+	return fmt.Sprintf("prefix=%s tid=%s pid=%s validate=%d samplers=%s", kit.Enc(c.prefix), encList(c.tids), encList(c.pids), v, encSamplers(c.samplers))
 }
 
 func parseHeader(h []string) caseCfg {
-	c := caseCfg{prefix: kit.Dec(kit.KV(h, "prefix")), tids: decList(kit.KV(h, "tid")), pids: decList(kit.KV(h, "pid")),
-		validate: kit.KV(h, "validate") == "1"}
-	if s := kit.KV(h, "samplers"); s != "-" && s != "" {
-		for _, one := range strings.Split(s, ";") {
-			p := strings.Split(one, "~")
-			if len(p) != 4 {
-				panic("bad sampler spec " + one)
-			}
-			r, _ := strconv.Atoi(p[2])
-			c.samplers = append(c.samplers, samplerSpec{name: kit.Dec(p[0]), kind: p[1], rate: r, fields: decList(p[3])})
-		}
-	}
-	return c
+	return caseCfg{prefix: kit.Dec(kit.KV(h, "prefix")), tids: decList(kit.KV(h, "tid")), pids: decList(kit.KV(h, "pid")),
+		validate: kit.KV(h, "validate") == "1", samplers: decSamplers(kit.KV(h, "samplers"))}
 }
 
 func jq(s string) string { b, _ := json.Marshal(s); return string(b) }
@@ -132,10 +143,12 @@ func (c caseCfg) mainYAML() []byte {
 	return []byte(b.String())
 }
 
-func (c caseCfg) rulesYAML() []byte {
+func (c caseCfg) rulesYAML() []byte { return rulesYAMLOf(c.samplers) }
+
+func rulesYAMLOf(samplers []samplerSpec) []byte {
 	var b strings.Builder
 	b.WriteString("RulesVersion: 2\nSamplers:\n")
-	for _, s := range c.samplers {
+	for _, s := range samplers {
 		fmt.Fprintf(&b, "  %s:\n", jq(s.name))
 		switch s.kind {
 		case "det":
@@ -153,7 +166,7 @@ func (c caseCfg) rulesYAML() []byte {
 			fmt.Fprintf(&b, "        - Name: %s\n          SampleRate: %d\n", jq(fmt.Sprintf("s%d-else", s.rate)), s.rate+100)
 		}
 	}
-	if len(c.samplers) == 0 {
+	if len(samplers) == 0 {
 		b.WriteString("  {}\n")
 	}
 	return []byte(b.String())
@@ -442,6 +455,7 @@ func genPayload(r *kit.Rng, c caseCfg, tid string, fieldsOfInterest []string) []
 
 func (comp) Gen(r *kit.Rng, maxLen int, tier string) kit.Case {
 	c := genCfg(r)
+	header := c.header() // the rules the process starts with (c.samplers follows the reloads below)
 	hasDefault := false
 	var allFields []string
 	for _, s := range c.samplers {
@@ -452,6 +466,31 @@ func (comp) Gen(r *kit.Rng, maxLen int, tier string) kit.Case {
 	}
 	n := 6 + r.Intn(maxLen)
 	var ops []string
+	ids := append(append(append([]string{}, c.tids...), c.pids...), idish...)
+	nextRate := 30
+	reloadW := 0
+	if r.Chance(55) {
+		reloadW = 5 // cases with rules reloads
+	}
+	hasEntry := func(nm string) bool {
+		for _, x := range c.samplers {
+			if x.name == nm {
+				return true
+			}
+		}
+		return false
+	}
+	newSampler := func(nm string) samplerSpec {
+		kind := []string{"det", "dyn", "dyn", "rules", "rules"}[r.Intn(5)]
+		x := samplerSpec{name: nm, kind: kind, rate: nextRate}
+		if nextRate < 95 {
+			nextRate += 1 + r.Intn(2)
+		}
+		if kind != "det" {
+			x.fields = genFieldList(r, kind, ids)
+		}
+		return x
+	}
 	// keys of a case: a small pool so that spans of one trace usually share a key, each with a fixed environment
 	type kenv struct{ key, env string }
 	var keys []kenv
@@ -495,7 +534,62 @@ func (comp) Gen(r *kit.Rng, maxLen int, tier string) kit.Case {
 	var openOrder []string
 	nextTid := 0
 	for i := 0; i < n; i++ {
-		switch r.Pick(24, 14, 10, 38, 14) {
+		switch r.Pick(24, 14, 10, 38, 14, reloadW) {
+		case 5:
+			// the rules file is rewritten and reloaded: __default__ and/or named entries change
+			ns := append([]samplerSpec{}, c.samplers...)
+			changed := false
+			for j := range ns {
+				if ns[j].name == "__default__" && r.Chance(70) {
+					ns[j] = newSampler("__default__")
+					changed = true
+				} else if ns[j].name != "__default__" && r.Chance(25) {
+					ns[j] = newSampler(ns[j].name)
+					changed = true
+				}
+			}
+			if r.Chance(25) {
+				nm := pick(r, []string{"prod", "staging", "dev", "ds1", "ds2", "b", "my ds"})
+				if c.prefix != "" && r.Chance(40) {
+					nm = c.prefix + "." + nm
+				}
+				if !hasEntry(nm) {
+					ns = append(ns, newSampler(nm))
+					changed = true
+				}
+			}
+			if len(ns) > 1 && r.Chance(20) {
+				j := 1 + r.Intn(len(ns)-1)
+				if ns[j].name != "__default__" {
+					ns = append(ns[:j], ns[j+1:]...)
+					changed = true
+				}
+			}
+			if r.Chance(6) && len(ns) > 0 && ns[0].name == "__default__" {
+				ns = ns[1:] // no __default__: rejected by validation, accepted without
+				changed = true
+			}
+			if !changed && len(ns) > 0 {
+				ns[0] = newSampler(ns[0].name)
+			}
+			ops = append(ops, "reload "+encSamplers(ns))
+			nd := false
+			for _, x := range ns {
+				if x.name == "__default__" {
+					nd = true
+				}
+			}
+			if !c.validate || nd {
+				c.samplers = ns
+				hasDefault = nd
+				for _, x := range ns {
+					allFields = append(allFields, x.fields...)
+				}
+			}
+			// ask right away for destinations with and without their own entry
+			for _, nm := range []string{pick(r, envPool), pick(r, dsPool), name()} {
+				ops = append(ops, "lookup "+kit.Enc(nm))
+			}
 		case 0:
 			ops = append(ops, "classify "+kit.Enc(genKey(r)))
 		case 1:
@@ -564,7 +658,7 @@ func (comp) Gen(r *kit.Rng, maxLen int, tier string) kit.Case {
 	for _, tid := range openOrder {
 		ops = append(ops, "decide "+kit.Enc(tid))
 	}
-	return kit.Case{Header: c.header(), Ops: ops}
+	return kit.Case{Header: header, Ops: ops}
 }
 
 // ---------------------------------------------------------------------------------------------
@@ -581,12 +675,29 @@ type runner struct {
 	sf      *sample.SamplerFactory
 	worker  *collect.CollectorWorker
 	decided map[string]bool
+	dir     string
 }
 
 func (comp) NewCase(h []string) kit.Runner {
 	c := parseHeader(h)
 	r := &runner{c: c, decided: map[string]bool{}}
-	cfg, err := config.VerifSamplerselNewFileConfig(c.mainYAML(), c.rulesYAML(), !c.validate)
+	// configuration and rules are real files, loaded the way cmd/refinery does (config.NewConfig)
+	dir, err := os.MkdirTemp("", "vh_samplersel")
+	if err != nil {
+		panic(err)
+	}
+	r.dir = dir
+	if err := os.WriteFile(filepath.Join(dir, "config.yaml"), c.mainYAML(), 0o600); err != nil {
+		panic(err)
+	}
+	if err := os.WriteFile(filepath.Join(dir, "rules.yaml"), c.rulesYAML(), 0o600); err != nil {
+		panic(err)
+	}
+	cfg, err := config.NewConfig(&config.CmdEnv{
+		ConfigLocations: []string{filepath.Join(dir, "config.yaml")},
+		RulesLocations:  []string{filepath.Join(dir, "rules.yaml")},
+		NoValidate:      !c.validate,
+	})
 	if cfg == nil {
 		r.cfgErr = "cfgerror " + kit.Enc(fmt.Sprint(err))
 		return r
@@ -627,6 +738,9 @@ func (comp) NewCase(h []string) kit.Runner {
 }
 
 func (r *runner) Close() {
+	if r.dir != "" {
+		os.RemoveAll(r.dir)
+	}
 	if r.worker != nil {
 		r.worker.Stop() // the decision record's maintenance goroutine
 	}
@@ -817,7 +931,21 @@ func (r *runner) Do(op []string) (string, bool) {
 			collect.VerifSamplerselProcess(r.worker, sp)
 		}
 		return obs, true
+	case "reload":
+		if err := os.WriteFile(filepath.Join(r.dir, "rules.yaml"), rulesYAMLOf(decSamplers(op[1])), 0o600); err != nil {
+			panic(err)
+		}
+		if err := r.cfg.Reload(); err != nil {
+			return "reloaded 0", true
+		}
+		// what the collector does when the reload callback fires (reloadConfigs + the worker's reload branch)
+		r.sf.ClearDynsamplers()
+		collect.VerifSamplerselReloadWorker(r.worker)
+		return "reloaded 1", true
 	case "decide":
+		if c, _ := r.cfg.GetSamplerConfigForDestName("\x00no-such-name"); c == nil {
+			return "nosampler", true // no __default__ in force: the sampler factory may exit the process
+		}
 		d := collect.VerifSamplerselDecide(r.worker, kit.Dec(op[1]))
 		if !d.Found {
 			return "notrace", true
